@@ -78,7 +78,7 @@ def session_config(scheme, mode, tier, known, narrow=False, **over):
              Excused=excused_for(scheme, known))
     c.update(over)
     # thorough tier: three committed polynomials and the remaining query / combination shapes
-    if tier == "thorough" and mode in ("C01", "C02", "C03", "C05", "C06", "C10") and "MaxPolys" not in over:
+    if tier == "thorough" and narrow and mode in ("C01", "C02", "C03", "C05", "C06", "C10") and "MaxPolys" not in over:
         c["MaxPolys"] = 3
         if "batch" in c["OpKinds"]:
             c["QsShapes"] = set(c["QsShapes"]) | {5, 6}
